@@ -329,7 +329,7 @@ func float32Grid(r *rand.Rand) *fgrid {
 }
 
 // mathExactPrograms builds one table program per exact-class function.
-func mathExactPrograms(r *rand.Rand, nrnd int) []*tprog {
+func mathExactPrograms(r *rand.Rand, nrnd, perProg int) []*tprog {
 	gu := unaryGrid(r)
 	gb := binaryGrid(r, 8)
 	gt := tripleGrid(r)
@@ -341,12 +341,20 @@ func mathExactPrograms(r *rand.Rand, nrnd int) []*tprog {
 		return fmt.Sprintf("rg := &rng{%s}\n\tfor i := 0; i < %d; i++ {\n\t\t%s", seed(), nrnd, vars)
 	}
 	var out []*tprog
+	var cur *tprog
+	cnt := 0
 	mk := func(fn string) *tprog {
-		t := newTprog("math-"+fn, "math")
-		t.files["zz_mathlib.go"] = mathLib
-		t.files["zz_grid.go"] = gridFile
-		out = append(out, t)
-		return t
+		if cur == nil || cnt >= perProg {
+			cur = newTprog("math-"+fn, "math")
+			cur.files["zz_mathlib.go"] = mathLib
+			cur.files["zz_grid.go"] = gridFile
+			out = append(out, cur)
+			cnt = 0
+		} else {
+			cur.name += "+" + fn
+		}
+		cnt++
+		return cur
 	}
 	// float64 -> float64
 	for _, fn := range []string{"Ceil", "Floor", "Trunc", "Round", "RoundToEven", "Abs", "Sqrt", "Logb"} {
@@ -359,6 +367,10 @@ func mathExactPrograms(r *rand.Rand, nrnd int) []*tprog {
 	for _, fn := range []string{"Signbit", "IsNaN"} {
 		t := mk(fn)
 		call := "r := math." + fn + "(x)"
+		if fn == "Signbit" {
+			// the sign of a NaN is not specified (payload-insensitive comparison)
+			call = "if x != x {\n\t\t\tcontinue\n\t\t}\n\t\t" + call
+		}
 		t.block("math."+fn+"/grid", "for _, x := range gridU {", call, "d.wb(r)", `sf(x) + " -> " + btoa(r)`, 211, 1)
 		t.block("math."+fn+"/rnd", rndOpen("x := rndF(rg)"), call, "d.wb(r)", `sf(x) + " -> " + btoa(r)`, nrnd/7+1, 1)
 	}
@@ -370,8 +382,8 @@ func mathExactPrograms(r *rand.Rand, nrnd int) []*tprog {
 	}
 	{
 		t := mk("Inf")
-		t.pre.WriteString("var signs = []int{-2147483647, -7, -1, 0, 1, 2, 2147483647}\n")
-		t.block("math.Inf/all", "for _, s := range signs {", "r := math.Inf(s)", "d.w64(k64(r))", `itoa(s) + " -> " + sf(r)`, 1, 1)
+		t.pre.WriteString("var signsInf = []int{-2147483647, -7, -1, 0, 1, 2, 2147483647}\n")
+		t.block("math.Inf/all", "for _, s := range signsInf {", "r := math.Inf(s)", "d.w64(k64(r))", `itoa(s) + " -> " + sf(r)`, 1, 1)
 	}
 	{
 		t := mk("NaN")
@@ -396,8 +408,8 @@ func mathExactPrograms(r *rand.Rand, nrnd int) []*tprog {
 		t := mk("Float64bits")
 		t.block("math.Float64bits/grid", "for _, x := range gridU {", "r := nb64(math.Float64bits(x))", "d.w64(r)", `"-> " + hex64(r)`, 211, 1)
 		// arithmetic-made values: the argument is not produced by Float64frombits
-		t.block("math.Float64bits/arith", "p := 1.0\n\tfor k := 0; k < 2098; k++ {\n\t\tx := p * 0x1.0000000000001p-1074\n\t\tif k&1 == 1 {\n\t\t\tx = -x * 3\n\t\t}\n\t\tp *= 2\n\t\tif k >= 1023 {\n\t\t\tp = 0x1p1023\n\t\t\tx = p / float64(k-1022) * 1.0000001\n\t\t}",
-			"r := nb64(math.Float64bits(x))", "d.w64(r)", `"-> " + hex64(r)`, 97, 1)
+		t.block("math.Float64bits/arith", "p := 0x1p-1074\n\tfor k := 0; k < 2098; k++ {\n\t\tx := p\n\t\tif k%3 == 1 {\n\t\t\tx = -p * 3\n\t\t} else if k%3 == 2 {\n\t\t\tx = p * 0x1.fffffffffffffp0\n\t\t}\n\t\tp *= 2",
+			"r := nb64(math.Float64bits(x))", "d.w64(r)", `itoa(k) + " -> " + hex64(r)`, 97, 1)
 		t.block("math.Float64bits/rnd", rndOpen("b := rndBits(rg)\n\t\tx := math.Float64frombits(b)"), "r := nb64(math.Float64bits(x))", "d.w64(r)\n\t\td.wb(r == nb64(b))", `hex64(b) + " -> " + hex64(r)`, nrnd/7+1, 1)
 	}
 	{
@@ -455,8 +467,16 @@ func obs(x float64) (uint64, int) {
 	for _, fn := range []string{"Copysign", "Mod", "Remainder", "Dim", "Max", "Min", "Nextafter"} {
 		t := mk(fn)
 		call := "r := math." + fn + "(x, y)"
+		if fn == "Copysign" {
+			// the sign of a NaN is not specified (payload-insensitive comparison)
+			call = "if y != y {\n\t\t\tcontinue\n\t\t}\n\t\t" + call
+		}
 		t.block("math."+fn+"/grid2", "for _, x := range gridB {\n\tfor _, y := range gridB {", call, "d.w64(k64(r))", `sf(x) + " " + sf(y) + " -> " + sf(r)`, 1511, 2)
-		t.block("math."+fn+"/gridU-x", "for _, x := range gridU {\n\tfor _, y := range gridT {", call, "d.w64(k64(r))", `sf(x) + " " + sf(y) + " -> " + sf(r)`, 20011, 2)
+		ys := "gridT"
+		if fn == "Mod" || fn == "Remainder" {
+			ys = "gridT[:14]" // the reference's Mod loops once per quotient bit
+		}
+		t.block("math."+fn+"/gridU-x", "for _, x := range gridU {\n\tfor _, y := range "+ys+" {", call, "d.w64(k64(r))", `sf(x) + " " + sf(y) + " -> " + sf(r)`, 20011, 2)
 		t.block("math."+fn+"/rnd", rndOpen("x, y := rndF(rg), rndF(rg)"), call, "d.w64(k64(r))", `sf(x) + " " + sf(y) + " -> " + sf(r)`, nrnd/7+1, 1)
 		if fn == "Mod" || fn == "Remainder" || fn == "Nextafter" || fn == "Dim" {
 			// near arguments: y within a few ulp / small multiples of x (tiny ratios), and huge ratios
